@@ -159,6 +159,7 @@ theorem applyFilter_inv (P : Prims) {f : FName} {v : Val} {args : List Val} {r :
     split at h
     · exact okS_inv h (hv _ (by simp))
     · simp only [Except.ok.injEq] at h; subst h; trivial
+    · simp only [Except.ok.injEq] at h; subst h; trivial
   -- last
   case h_37 =>
     split at h
@@ -166,6 +167,7 @@ theorem applyFilter_inv (P : Prims) {f : FName} {v : Val} {args : List Val} {r :
       · rename_i xs x hl
         exact okS_inv h (hv x (List.mem_of_getLast? hl))
       · simp only [Except.ok.injEq] at h; subst h; trivial
+    · simp only [Except.ok.injEq] at h; subst h; trivial
     · simp only [Except.ok.injEq] at h; subst h; trivial
   -- reverse
   case h_38 =>
